@@ -144,6 +144,38 @@ def run(ctx):
         fe = [tt for _, tt in ab.calls() if tt.callee.is_("core::iter::traits::iterator::Iterator::for_each")]
         ok = len(fe) == 1 and fe[0].args[1].const_fn() is not None and fe[0].args[1].const_fn().is_("JoinHandle::abort", "tokio::runtime::task::join::JoinHandle::abort")
         ctx.require(ok, "R08.2", "abort-all-aborts-each", "abort_all aborts every task handle", ab.loc(ab.line))
+        # the set really holds what is put into it and join_all really waits for all of it
+        LJ = "watchexec::late_join_set::LateJoinSet"
+        ins = ctx.anchor_fn("R08.3", LJ + "::insert")
+        pushes = [[pathx.desc(a) for a in nd["a"]] for c, nd in thir.calls_in(thir.root(ins)) if strip_generics(c).endswith("FuturesUnordered::push")]
+        ctx.require(pushes == [["self.tasks", "task"]], "R08.3", "set:insert", "LateJoinSet::insert stores the task handle", ins.loc(ins.line), detail=str(pushes),
+                    fail="LateJoinSet::insert does not keep the task handle: job tasks are neither joined on a graceful quit nor aborted on drop")
+        sp = ctx.anchor_fn("R08.3", LJ + "::spawn")
+        v = [(strip_generics(c).split("::")[-1], [pathx.desc(a) for a in nd["a"]]) for c, nd in thir.calls_in(thir.root(sp))]
+        ctx.require(("insert", ["self", "spawn::spawn(task)"]) in v, "R08.3", "set:spawn", "LateJoinSet::spawn spawns the future and inserts its handle", sp.loc(sp.line), detail=str(v)[:200],
+                    fail="LateJoinSet::spawn does not spawn-and-keep the task: the per-job shutdown tasks of a graceful quit never run or are not waited for")
+        ja = ctx.anchor_one("R08.3", "LateJoinSet::join_all coroutine", [c for c in facts.children(ctx.anchor_fn("R08.3", LJ + "::join_all")) if c.kind == "coroutine"])
+        okj = False
+        for q in pathx.Enum().paths(thir.root(ja)):
+            loops = [e for e in q.ev if e[0] == "loop"]
+            # the loop goes on exactly while join_next() yields Some, and is left only on None
+            conds = set()
+            for l in loops:
+                for it in l[1]:
+                    for e in it:
+                        if e[0] == "branch":
+                            conds.add(("in", e[1].replace("Option::is_none", "Not Option::is_some") if False else e[1], e[2]))
+            exit_c = [(e[1], e[2]) for e in q.ev if e[0] == "branch"]
+            JN = "Option::is_some(await LateJoinSet::join_next(self))"
+            from ..throttle import implies
+            stay = all(implies(d.replace("Option::is_none(", "Not Option::is_some("), tr, JN, True) for _, d, tr in conds) and bool(conds)
+            leave = any(implies(d.replace("Option::is_none(", "Not Option::is_some("), tr, JN, False) for d, tr in exit_c)
+            okj = okj or (len(loops) == 1 and stay and leave and q.out == "val")
+        ctx.require(okj, "R08.3", "set:join-all", "join_all keeps joining while join_next() yields a task and returns only when the set is empty", ja.loc(ja.line),
+                    fail="LateJoinSet::join_all no longer waits until every task has been joined: a graceful quit returns while job tasks (and their processes) are still alive")
+        jn = ctx.anchor_one("R08.3", "LateJoinSet::join_next coroutine", [c for c in facts.children(ctx.anchor_fn("R08.3", LJ + "::join_next")) if c.kind == "coroutine"])
+        nx = [[pathx.desc(a).lstrip("^") for a in nd["a"]] for c, nd in thir.calls_in(thir.root(jn)) if strip_generics(c).endswith("StreamExt::next")]
+        ctx.require(nx == [["self.tasks"]], "R08.3", "set:join-next", "join_next polls the stored task handles", jn.loc(jn.line), detail=str(nx))
     except Skip:
         pass
     try:
